@@ -85,7 +85,8 @@ Theorem C04_gap_is_requested_partial : forall c m now w n,
 Proof. exact gap_is_requested. Qed.
 Print Assumptions C04_gap_is_requested_partial.
 
-(* the expected number moves only: by one, on an accepted message that carries it; or, on a
+(* the expected number moves only: by one, on an accepted message that carries it (since the repair of D22 this
+   includes the peer's Logout, counted in the pre-handler before the session is torn down); or, on a
    SequenceReset passing the integrity check, to that frame's own number or to its NewSeqNo *)
 Theorem C04_counter_moves : forall c h w, Forall (counter_moves c) (run c w h).
 Proof. exact run_counter_moves. Qed.
@@ -154,3 +155,17 @@ Theorem C04_acceptor_relogon_refuted :
     /\ s_events s = [] /\ s_after s = s_before s.
 Proof. exact acceptor_relogon_refuted. Qed.
 Print Assumptions C04_acceptor_relogon_refuted.
+
+(* the peer's Logout in sequence is counted and journaled (D22 repaired), never delivered; one above a gap is not *)
+Example C04_logout_counted :
+  let w := final cfg0 w_acceptor [i_logon 1; i_app 2; i_logout 3] in
+  nin w = 4 /\ j_in (jr w) = [1; 2; 3] /\ j_sin (jr w) = 3 /\ st w = ST_DISC_WCONN
+  /\ flat_map delivered (run cfg0 w_acceptor [i_logon 1; i_app 2; i_logout 3]) = [2].
+Proof. exact logout_counted_example. Qed.
+Print Assumptions C04_logout_counted.
+
+Example C04_logout_gap_not_counted :
+  let w := final cfg0 w_acceptor [i_logon 1; i_logout 5] in
+  nin w = 2 /\ j_in (jr w) = [1] /\ st w = ST_DISC_WCONN.
+Proof. exact logout_gap_not_counted. Qed.
+Print Assumptions C04_logout_gap_not_counted.
